@@ -6,14 +6,8 @@
 //!   verif child <ID> <sub>          (internal: child-process case runner)
 //!   verif list
 
-mod engine;
-mod gens;
-mod oracle;
-mod peers;
-mod props;
-mod util;
-
-use engine::{Ctx, Report, Tier};
+use verif::engine::{self, Ctx, Report, Tier};
+use verif::props;
 
 fn usage() -> ! {
     eprintln!("usage: verif run <ID> quick|thorough [--only subs] | replay <ID> <path> | list");
@@ -134,10 +128,24 @@ fn main() {
             let mut failed = 0;
             let mut last = None;
             for _ in 0..runs {
-                if let Err(f) = (def.replay)(sub, &doc["case"]) {
+                let res = match sub.strip_prefix("fuzz:") {
+                    Some(target) => {
+                        let hex = doc["case"]["hex"].as_str().unwrap_or("");
+                        let raw: Vec<u8> = (0..hex.len() / 2).filter_map(|i| u8::from_str_radix(&hex[2 * i..2 * i + 2], 16).ok()).collect();
+                        verif::fuzz::replay_raw(target, &raw)
+                    }
+                    None => (def.replay)(sub, &doc["case"]),
+                };
+                if let Err(f) = res {
                     failed += 1;
                     last = Some(f);
                 }
+            }
+            if let Some(f) = &last
+                && f.sig.starts_with("harness-")
+            {
+                eprintln!("INCONCLUSIVE property={} {}: {}", def.id, f.sig, f.msg);
+                std::process::exit(2);
             }
             if let Some(f) = last {
                 println!("VIOLATION property={} replay={}", def.id, args[3]);
